@@ -152,11 +152,12 @@ def extract(unit_list, repo=None, extra_args=(), roots=None, tag=''):
         rts = roots or [repo.rstrip('/') + '/']
         if os.path.isabs(u) and not roots:
             rts = rts + [os.path.dirname(u).rstrip('/') + '/']     # witness units: their own explicit instantiations are wanted too
-        cmd = [BIN, '--out=' + out + '.tmp'] + ['--root=' + r for r in rts] + list(extra_args) + [src, '--'] + flags_for(u, repo)
+        tmp = '%s.%d.tmp' % (out, os.getpid())
+        cmd = [BIN, '--out=' + tmp] + ['--root=' + r for r in rts] + list(extra_args) + [src, '--'] + flags_for(u, repo)
         p = subprocess.run(cmd, stdout=subprocess.PIPE, stderr=subprocess.PIPE, text=True)
-        if p.returncode != 0 or not os.path.exists(out + '.tmp'):
+        if p.returncode != 0 or not os.path.exists(tmp):
             raise AnalysisBroken('f8facts failed on %s (exit %s):\n%s' % (u, p.returncode, p.stderr[-2000:]))
-        os.replace(out + '.tmp', out)
+        os.replace(tmp, out)
         return u
 
     if todo:
